@@ -249,8 +249,8 @@ pub fn run(ctx: &Ctx) {
         ctx.class_n("valid frames padded / cut to a wrong length", n);
     }
     // decoding is a function of the bytes only: related inputs in several orders on one thread
-    drive_families_with(ctx, "c01", ctx.tier.pick(48_000, 600_000), &observable, Some(&|f| check_total(ctx, &h, f)));
-    crate::frames::drive_bit_neighbours(ctx, "c01", ctx.tier.pick(1, 8), &observable);
+    drive_families_with(ctx, "c01", ctx.tier.pick(48_000, 160_000), &observable, Some(&|f| check_total(ctx, &h, f)));
+    crate::frames::drive_bit_neighbours(ctx, "c01", ctx.tier.pick(1, 3), &observable);
     // thorough: coverage-guided campaign (libFuzzer) with the same oracle inside the target
     crate::fuzzrun::decode_campaign(ctx, "c01", &|f| check_total(ctx, &h, f));
     export(ctx, &h);
